@@ -16,6 +16,7 @@ type searchTemplate struct {
 	Named   map[string]bool
 	Filters []string // which filters were non-empty on the path
 	Unknown string   // non-empty when the evaluator met a construct it cannot interpret
+	ArgPos  []int    // for each id-list expansion, in call order, where its placeholder was in the query
 }
 
 // evalSearchBuilder interprets the string-building statements of a query builder along one path.
@@ -131,7 +132,9 @@ func evalSearchBuilder(fl *Flow, p *Path) searchTemplate {
 						tok, ok2 := eval(c.Args[1])
 						if ok1 && ok2 {
 							if o := ObjOf(info, e.Lhs[0]); o != nil {
-								strs[o] = strings.Replace(q, tok, "(?)", 1)
+								t.ArgPos = append(t.ArgPos, strings.Index(q, tok))
+								// keep later positions comparable: the replacement has the token's length
+								strs[o] = strings.Replace(q, tok, "(?)"+strings.Repeat(" ", max(0, len(tok)-3)), 1)
 							}
 						} else {
 							t.Unknown = "replaceWithIDs with non-constant arguments"
@@ -223,6 +226,16 @@ func lintSearchTemplate(t searchTemplate) []string {
 	for _, d := range reDollar.FindAllString(q, -1) {
 		if !t.Named[d] {
 			probs = append(probs, "placeholder "+d+" is left in the query but never bound")
+		}
+	}
+	for i := 1; i < len(t.ArgPos); i++ {
+		if t.ArgPos[i] >= 0 && t.ArgPos[i-1] >= 0 && t.ArgPos[i] < t.ArgPos[i-1] {
+			probs = append(probs, "the id lists are expanded (and their positional arguments appended) in a different order than their placeholders appear in the query: the values are bound to the wrong IN lists")
+		}
+	}
+	for _, pos := range t.ArgPos {
+		if pos < 0 {
+			probs = append(probs, "an id list is expanded for a placeholder that does not occur in the query")
 		}
 	}
 	m := reWherePart.FindStringSubmatch(q)
